@@ -974,7 +974,7 @@ class BMatrix(TwoPortMatrix):
     def reverse_transadmittance(self):
         """Return I1 / V2 for V1 = 0 with independent sources killed."""
 
-        return LaplaceDomainAdmittance(-1 / self._B12)
+        return LaplaceDomainAdmittance(1 / self._B12)
 
     @classmethod
     def Zseries(cls, Zval):
